@@ -15,11 +15,15 @@ ASSUMPTIONS = [
     "values are concrete; the permutation and the selection are symbolic",
 ]
 CONDITIONS = (
-    [X("perm", "c10.py", "h_perm", timeout=900 if n < 4 else 3000, params={"n": n, "a": a},
+    [X("perm", "c10.py", "h_perm", timeout=900, params={"n": n, "a": a},
        what="sorted: bytes independent of insertion order; unsorted: exact insertion order; twice identical; snapshot unchanged; balanced BEGIN/END",
        bound="every subset of %d of the 8 pool properties with smallest index %d (looped), symbolic permutation, nested alarms on/off, Event/Todo" % (n, a),
        tiers=("quick", "thorough") if (n <= 2 or (n == 3 and a >= 3)) else ("thorough",))
-     for n in (1, 2, 3, 4) for a in range(0, 9 - n)]
+     for n in (1, 2, 3) for a in range(0, 9 - n)]
+    + [X("perm", "c10.py", "h_perm", timeout=3000, params={"n": 4, "a": a, "kind": kind, "nested": nested}, tiers=("thorough",),
+         what="sorted: bytes independent of insertion order; unsorted: exact insertion order; twice identical; snapshot unchanged; balanced",
+         bound="every subset of 4 of the 8 pool properties with smallest index %d (looped), all 24 permutations, kind %d, nested %s" % (a, kind, nested))
+       for a in range(0, 5) for kind in (0, 1) for nested in (False, True)]
     + [X("nested-unsorted", "c10.py", "h_nested_unsorted", timeout=200, what="sorted=False reaches nested components; subcomponents keep insertion order", bound="3! x 3! insertion orders of a VEVENT and its VALARM inside a VCALENDAR"),
        X("repeats", "c10.py", "h_repeats", timeout=100, what="repeated properties of one name keep insertion order", bound="3 repeats, all orders, both flags"),
        X("datetime-pure", "c10.py", "h_datetime_pure", timeout=100, what="vDatetime.to_ical TZID side effect is idempotent and invisible in the bytes", bound="floating / UTC / zoned")]
